@@ -409,11 +409,32 @@ class Skel:
 # ----------------------------------------------------------------------------------------------------
 # normal form: set of paths; a path is a tuple of elements; element = field tuple | ('L', frozenset(paths))
 # ----------------------------------------------------------------------------------------------------
+def _has_end(items):
+    for it in items:
+        if it[0] == 'END':
+            return True
+        if it[0] in ('L', 'CALL') and _has_end(it[2]):
+            return True
+        if it[0] == 'I' and (_has_end(it[2]) or _has_end(it[3])):
+            return True
+        if it[0] == 'SW' and any(_has_end(v) for v in it[2].values()):
+            return True
+    return False
+
+
 def inline(items):
     out = []
     for it in items:
         if it[0] == 'CALL':
-            out += inline(it[2])
+            sub = inline(it[2])
+            # a success return of the helper ends the helper, not the layout: the final `return 0` is dropped; a helper
+            # with an early success return stays a nested item (its paths all continue after the call, see _paths)
+            while sub and sub[-1][0] == 'END':
+                sub = sub[:-1]
+            if _has_end(sub):
+                out.append(('CALL', it[1], sub))
+            else:
+                out += sub
         elif it[0] == 'L':
             out.append(('L', it[1], inline(it[2])))
         elif it[0] == 'I':
@@ -551,6 +572,9 @@ def _paths(items, widths_only):
                 l_all.add(())
             done |= {p + q for p in live for q in d_all}
             live = {p + q for p in live for q in l_all}
+        elif k == 'CALL':
+            d2, l2 = _paths(it[2], widths_only)
+            live = {p + q for p in live for q in (d2 | l2)}
         elif k == 'SLOT':
             live = {p + (('SLOT', it[1]),) for p in live}
         if len(live) + len(done) > 50000:
